@@ -507,7 +507,7 @@ def c12(tier, seed):
     ocfgs = overlay.layer_configs(fu, 2)
     for oc in ocfgs[::(12 if tier == 'quick' else 2)]:
         fcases.append({'universe': 'UO3', 'config': 'ovl', 'state': oc, 'ops': fops, 'props': ['C12']})
-    tc = transfer.transfer_cases(['same_mem', 'two_mem', 'same_alt', 'same_altalt', 'mem_to_alt'] if tier == 'quick' else transfer.PAIRS, ['C12'], tier, seed)
+    tc = transfer.transfer_cases(['same_mem', 'two_mem', 'same_alt', 'same_altalt', 'mem_to_alt', 'same_phys'] if tier == 'quick' else transfer.PAIRS, ['C12'], tier, seed)
     from . import handles
     hostile = [{'name': b's', 'kind': 'socket', 'props': ['C12', 'C13']}, {'name': b'l', 'kind': 'dangling_link', 'props': ['C12', 'C13']}]
     return run_onestep('C12', tier, seed, ['mem', 'alt:/a'], ['mem', 'alt:/a', 'alt:/a/b', 'altalt'], ALL_OPS, overlay_plan=plan,
